@@ -215,4 +215,57 @@ Proof.
   - intro env. exists k. intro g. now rewrite G.
 Qed.
 
+(* ---------------------------------------------------------------- source-level skeletons WITHOUT draws *)
+Lemma crs_hist_srcs : forall v (w : lworld), hist (snd (crs v w)) = hist w /\ srcs (snd (crs v w)) = srcs w.
+Proof. intros [|s|g|] w; simpl; try (destruct (seed_ok s)); split; reflexivity. Qed.
+
+Definition pdf_post (env : nat -> gstate -> gstate) (I : interp) sk e (w : lworld) : Prop :=
+  exists e1 w1 k, hist w1 = hist w /\ srcs w1 = srcs w /\ ticks w1 = ticks w + k /\
+                  forall g, prunG env I sk e w g = (e1, w1, adv env (ticks w) k g).
+
+Lemma ploop_df : forall env (I : interp) body t,
+  (forall e w, pdf_post env I body e w) ->
+  forall n i e w, exists e1 w1 k, hist w1 = hist w /\ srcs w1 = srcs w /\ ticks w1 = ticks w + k /\
+     forall g, ploopG gstate value (prunG env I body) (stop I t) n i e w g = (e1, w1, adv env (ticks w) k g).
+Proof.
+  intros env I body t Hb. induction n; intros i e w; simpl.
+  - exists e, w, 0. repeat split; auto.
+  - destruct (stop I t i (hist w)).
+    + exists e, w, 0. repeat split; auto.
+    + destruct (Hb e w) as (e1 & w1 & k1 & H1 & S1 & T1 & G1).
+      destruct (IHn (S i) e1 w1) as (e2 & w2 & k2 & H2 & S2 & T2 & G2).
+      exists e2, w2, (k1 + k2). repeat split; try congruence; try lia.
+      intro g. rewrite G1, G2, T1. now rewrite advance_add.
+Qed.
+
+Lemma pdraw_free_run : forall env (I : interp) sk, pdraw_free sk = true -> forall e w, pdf_post env I sk e w.
+Proof.
+  intros env I. induction sk; intros D e0 w; simpl in D; try discriminate.
+  - exists e0, w, 0. repeat split; auto.
+  - apply andb_true_iff in D as [D1 D2].
+    destruct (IHsk1 D1 e0 w) as (e1 & w1 & k1 & H1 & S1 & T1 & G1).
+    destruct (IHsk2 D2 e1 w1) as (e2 & w2 & k2 & H2 & S2 & T2 & G2).
+    exists e2, w2, (k1 + k2). repeat split; try congruence; try lia.
+    intro g. simpl. rewrite G1, G2, T1. now rewrite advance_add.
+  - apply andb_true_iff in D as [D1 D2]. unfold pdf_post. simpl. destruct (decide I t (hist w)); [apply (IHsk1 D1) | apply (IHsk2 D2)].
+  - unfold pdf_post. simpl. apply ploop_df. intros e1 w1. apply (IHsk D).
+  - eexists _, w, 0. repeat split; auto.
+  - destruct (crs (peval e e0) (tickL gstate value w)) as [c1 w1] eqn:E.
+    pose proof (crs_hist_srcs (peval e e0) (tickL gstate value w)) as [Hh Hs]. rewrite E in Hh, Hs. simpl in Hh, Hs.
+    pose proof (crs_ticks gstate value seed (peval e e0) (tickL gstate value w)) as T. rewrite E in T. simpl in T.
+    eexists _, w1, 1. repeat split; auto; try lia. intro g. simpl. rewrite E. reflexivity.
+  - destruct (IHsk D [peval e e0] w) as (e1 & w1 & k1 & H1 & S1 & T1 & G1).
+    exists e0, w1, k1. repeat split; auto. intro g. simpl. now rewrite G1.
+Qed.
+
+Theorem pcall_rng_free : forall (I : interp) sk, pdraw_free sk = true ->
+  forall (a : rsarg gstate) env g,
+    o_hist (fst (pcallG env I sk a g)) = [] /\ o_srcs (fst (pcallG env I sk a g)) = [] /\
+    exists k, snd (pcallG env I sk a g) = adv env 0 k g.
+Proof.
+  intros I sk D a env g.
+  destruct (pdraw_free_run env I sk D [param0 gstate a] (w0 gstate value a)) as (e1 & w1 & k & H1 & S1 & T1 & G1).
+  unfold pcall. rewrite G1. simpl. repeat split; auto. now exists k.
+Qed.
+
 End P.
